@@ -32,6 +32,12 @@ RULES = {
               "(consistent orientation); closed shapes: each undirected edge exactly twice, every vertex used, V-E+F = 2",
     "C14-P1": "a variable passed positionally to a package function never lands in a *defaulted* parameter of another name while "
               "the callee has a parameter of the variable's own name",
+    "C14-Q1": "corner arithmetic of quad / hexahedron_4pts / axis_aligned_cube: every corner is an affine combination (weights sum to 1) "
+              "of the given points, the requested corners are among them, a face taken in face order is a parallelogram "
+              "(alternating corner sum 0) and the top face of the box is the bottom face translated",
+    "C14-A1": "a full turn `2*pi*x/T` in a closed generator is divided by the trip count of the loop variable x it multiplies "
+              "(otherwise the seam does not close when the two resolutions differ)",
+    "C14-W1": "chain_of_vertices: `loop=True` takes the wrapping pairs, `loop=False` the non-wrapping ones, over all vertices",
     "C14-D1": "vertex coordinates of the sphere / torus / cylinder generators have length-degree 1, sums are homogeneous, the result is "
               "translated by the centre (affine weight 1) and depends on every radius / centre / end-point parameter",
 }
@@ -105,7 +111,12 @@ DIM = {
 }
 
 
+def _res(b, expr, at=None, keep=()):
+    return G.fast_resolve(b, expr, at, keep)
+
+
 def run(ctx):
+    _LOST.clear()
     grids = {}
     for key in sorted(set(STRIDE_FUNCS) | set(RANGE_FUNCS) | set(COUNT_DOC) | set(TABLES)):
         fn = ctx.repo.func(*key)   # AnalysisError if the anchor is gone
@@ -121,6 +132,9 @@ def run(ctx):
     t1_tables(ctx, grids)
     p1_forwarding(ctx)
     d1_dimension(ctx)
+    q1_corners(ctx)
+    a1_full_turn(ctx)
+    w1_chain(ctx)
     ctx.declare_unsupported("unit_triangle: triangular loop nest with `break` and a floor-divided row offset (no index rule applied)")
     ctx.declare_unsupported("sphere_fibonacci: connectivity comes from scipy ConvexHull (only C14-D1 on the coordinates)")
     ctx.declare_unsupported("dual_mesh: faces are vertex_to_faces() rings of the input mesh (data dependent)")
@@ -131,7 +145,18 @@ def run(ctx):
         ctx.repo.func(*key)
 
 
+_LOST = set()
+
+
+def _floor(ctx, rule, label, n, at_least):
+    """fail closed on a vacuous pass - unless the rule already reported a lost construct as a finding"""
+    if rule in _LOST:
+        return
+    ctx.require_count(label, n, at_least)
+
+
 def _unrecognised(ctx, rule, key, fn, reason):
+    _LOST.add(rule)
     ctx.fail(rule, ctx.site(key[0], fn), f"index arithmetic of {key[1]} not found in a recognisable form",
              f"the generator can no longer be walked symbolically ({reason}); the rule cannot establish its clause")
 
@@ -180,7 +205,26 @@ def s1_stride(ctx, grids):
             ctx.fail("C14-S1", s, construct,
                      f"vertex (r, c) of the grid has index base + r*({nest[2].trip}) + c; witness {w}",
                      index=au.src(g.index_expr(em, k, run)), switches=run.label())
-    ctx.require_count("C14-S1 stride sites", n_sites, 30)
+        # a vertex-attribute key written in the vertex loop is the index of the vertex of that iteration
+        seen = set()
+        for run in runs:
+            nest = G.rect_nest(run)
+            for em in run.emits:
+                if em.kind != "vertices-attr" or nest is None or em.key in seen:
+                    continue
+                try:
+                    P = g.index_polys(em, run)[0]
+                except G.Unsupported:
+                    continue   # reported by C14-N1
+                appl, ok, want, wtxt = G.attr_key_check(g, run, nest, em, P)
+                if not appl or (id(em.stmt), 0) in failed:
+                    continue
+                seen.add(em.key)
+                n_sites += 1
+                ctx.check(ok, "C14-S1", ctx.site(key[0], fn, em.stmt),
+                          f"vertex attribute key `{P}` is not the index `{want}` of the vertex appended in the same iteration",
+                          wtxt, note=f"{key[1]}: attribute key = running vertex index")
+    _floor(ctx, "C14-S1", "C14-S1 stride sites", n_sites, 30)
     return failed
 
 
@@ -235,7 +279,7 @@ def n1_range(ctx, grids, failed_idx):
                 ctx.declare_unsupported(f"{key[1]}: index `{P}` not proved for all parameters; exhaustive for parameters <= {G.MAXPARAM} only")
             else:
                 ctx.fail("C14-N1", s, f"{em.kind} index of {key[1]} not found in a recognisable form", str(w))
-    ctx.require_count("C14-N1 index sites", n_sites, 150)
+    _floor(ctx, "C14-N1", "C14-N1 index sites", n_sites, 150)
 
 
 # ----------------------------------------------------------------------- C14-C1
@@ -295,7 +339,7 @@ def c1_counts(ctx, grids):
                 ctx.ok("C14-C1", site, f"{key[1]}: {label} agree with the documented polynomials for {len(runs)} switch assignment(s)")
             else:
                 ctx.fail("C14-C1", site, v[0], v[1])
-    ctx.require_count("C14-C1 count obligations", n, 13)
+    _floor(ctx, "C14-C1", "C14-C1 count obligations", n, 13)
 
 
 def _count_witness(g, got, want, what):
@@ -316,6 +360,7 @@ def t1_tables(ctx, grids):
         fn, g, runs, err = grids[key]
         site = ctx.site(key[0], fn)
         if runs is None:
+            _LOST.add("C14-T1")
             ctx.fail("C14-T1", site, f"literal face table of {key[1]} not found", err)
             continue
         seen = {}
@@ -362,7 +407,7 @@ def t1_tables(ctx, grids):
                               f"cell of {key[1]} is not a permutation of all appended vertices",
                               f"cell {au.src(em.tup)} with {run.V} vertices", note=f"{key[1]} cell uses every vertex once")
                     break
-    ctx.require_count("C14-T1 literal tables", n_tables, 7)
+    _floor(ctx, "C14-T1", "C14-T1 literal tables", n_tables, 7)
 
 
 # ----------------------------------------------------------------------- C14-P1
@@ -383,7 +428,7 @@ def p1_forwarding(ctx):
             ctx.fail("C14-P1", s, f"`{var}` is passed positionally into the defaulted parameter `{recv}` of {callee.name}",
                      f"{callee.name} has its own parameter `{var}`, which keeps its default: the value given to {fn.name} for "
                      f"`{var}` drives `{recv}` of {callee.name} instead (e.g. {var}=True turns `{recv}` on)")
-    ctx.require_count("C14-P1 forwarded switches", n, 4)
+    _floor(ctx, "C14-P1", "C14-P1 forwarded switches", n, 4)
 
 
 # ----------------------------------------------------------------------- C14-D1
@@ -394,7 +439,7 @@ def d1_dimension(ctx):
         site = ctx.site(key[0], fn)
         it = D.Interp(fn, D.Config(geo, ctx.repo, key[0])).run()
         n += dim_obligations(ctx, "C14-D1", key, fn, it, geo)
-    ctx.require_count("C14-D1 obligations", n, 20)
+    _floor(ctx, "C14-D1", "C14-D1 obligations", n, 20)
 
 
 def dim_obligations(ctx, rule, key, fn, it, geo, require=None):
@@ -468,3 +513,260 @@ def dim_obligations(ctx, rule, key, fn, it, geo, require=None):
         else:
             ctx.ok(rule, site, f"{key[1]}: `{' / '.join(alts)}` reaches the returned coordinates on every path")
     return n
+
+
+# ----------------------------------------------------------------------- C14-Q1
+def _affine(expr, points):
+    """polynomial of expr over the point atoms, or None"""
+    try:
+        return sym.to_poly(expr, opaque=False)
+    except sym.NotPoly:
+        return None
+
+
+def _weights_sum(P, points):
+    tot = Fraction(0)
+    for k, v in P.t.items():
+        if len(k) != 1 or k[0] not in points:
+            return None
+        tot += v
+    return tot
+
+
+def q1_corners(ctx):
+    n = 0
+    # ---- quad
+    fn = ctx.repo.func(FLAT, "quad")
+    site = ctx.site(FLAT, fn)
+    b = sym.Bindings(fn)
+    ps = au.params(fn)[:3]
+    verts = None
+    for st in au.stmts(fn.body):
+        if isinstance(st, ast.AugAssign) and isinstance(st.target, ast.Attribute) and st.target.attr == "vertices" \
+                and isinstance(st.value, (ast.List, ast.Tuple)) and len(st.value.elts) == 4:
+            verts = (st, [_res(b, e, at=st, keep=tuple(ps)) for e in st.value.elts])
+    if verts is None:
+        ctx.fail("C14-Q1", site, "quad: the four corner vertices are not appended as one literal list", "")
+    else:
+        st, es = verts
+        polys = [_affine(_strip_vec(e), ps) for e in es]
+        n += 3
+        if any(p is None for p in polys):
+            ctx.fail("C14-Q1", ctx.site(FLAT, fn, st), "quad: corner expressions are not affine combinations of P0, P1, P2",
+                     "; ".join(au.src(e) for e in es))
+        else:
+            sums = [_weights_sum(p, ps) for p in polys]
+            ctx.check(all(x == 1 for x in sums), "C14-Q1", ctx.site(FLAT, fn, st),
+                      "quad: a corner is not an affine combination of the given points (weights do not sum to 1)",
+                      f"corners {[str(p) for p in polys]}: the quad does not move with its three points", note="quad corners are affine")
+            alt = polys[0] - polys[1] + polys[2] - polys[3]
+            ctx.check(alt.is_zero(), "C14-Q1", ctx.site(FLAT, fn, st),
+                      "quad: the corners taken in face order (0,1,2,3) do not form a parallelogram",
+                      f"v0 - v1 + v2 - v3 = {alt} for corners {[str(p) for p in polys]}: the face is self-intersecting (bow-tie) or skewed",
+                      note="quad corners in face order form a parallelogram")
+            given = {str(Poly.atom(p)) for p in ps}
+            ctx.check(given <= {str(p) for p in polys}, "C14-Q1", ctx.site(FLAT, fn, st),
+                      "quad: one of the requested corners P0, P1, P2 is not a vertex of the quad",
+                      f"corners {[str(p) for p in polys]}", note="quad contains P0, P1, P2")
+    # ---- hexahedron_4pts
+    fn = ctx.repo.func(SHAPES, "hexahedron_4pts")
+    site = ctx.site(SHAPES, fn)
+    b = sym.Bindings(fn)
+    ps = au.params(fn)[:4]
+    calls = [c for c in au.calls(fn) if au.call_tail(c) == "hexahedron" and len(c.args) >= 8]
+    if len(calls) != 1:
+        ctx.fail("C14-Q1", site, "hexahedron_4pts: call of hexahedron with eight corners not found", "")
+    else:
+        c = calls[0]
+        polys = [_affine(_strip_vec(_res(b, e, at=c, keep=tuple(ps))), ps) for e in c.args[:8]]
+        n += _box_checks(ctx, SHAPES, fn, c, polys, "hexahedron_4pts",
+                         lambda P: _weights_sum(P, ps) == 1 if P is not None else False,
+                         required={0: Poly.atom(ps[0]), 1: Poly.atom(ps[1]), 3: Poly.atom(ps[2]), 4: Poly.atom(ps[3])})
+    # ---- axis_aligned_cube: literal corners
+    fn = ctx.repo.func(SHAPES, "axis_aligned_cube")
+    site = ctx.site(SHAPES, fn)
+    b = sym.Bindings(fn)
+    calls = [c for c in au.calls(fn) if au.call_tail(c) == "hexahedron" and len(c.args) >= 8]
+    if len(calls) != 1:
+        ctx.fail("C14-Q1", site, "axis_aligned_cube: call of hexahedron with eight corners not found", "")
+    else:
+        c = calls[0]
+        vecs = []
+        for e in c.args[:8]:
+            r = _res(b, e, at=c)
+            v = None
+            if isinstance(r, ast.Call) and au.call_tail(r) == "Vec" and len(r.args) == 3:
+                v = [au.const(x) for x in r.args]
+                if not all(isinstance(x, (int, float)) and not isinstance(x, bool) for x in v):
+                    v = None
+            vecs.append(v)
+        if any(v is None for v in vecs):
+            ctx.fail("C14-Q1", ctx.site(SHAPES, fn, c), "axis_aligned_cube: corners are not literal Vec(x, y, z)", "")
+            n += 1
+        else:
+            polys = [Poly({("x",): Fraction(v[0]).limit_denominator(10**6), ("y",): Fraction(v[1]).limit_denominator(10**6),
+                           ("z",): Fraction(v[2]).limit_denominator(10**6)}) for v in vecs]
+            n += _box_checks(ctx, SHAPES, fn, c, polys, "axis_aligned_cube", lambda P: True, required={})
+            n += 1
+            # unit cube centred at the origin: all corners (+-1/2, +-1/2, +-1/2), all distinct
+            ok = all(all(abs(x) == 0.5 for x in v) for v in vecs) and len({tuple(v) for v in vecs}) == 8
+            ctx.check(ok, "C14-Q1", ctx.site(SHAPES, fn, c), "axis_aligned_cube: corners are not the eight points (+-0.5, +-0.5, +-0.5)",
+                      f"{vecs}", note="unit cube corners")
+    _floor(ctx, "C14-Q1", "C14-Q1 obligations", n, 9)
+
+
+def _strip_vec(e):
+    """Vec(x) -> x (a conversion, not a combination)"""
+    class T(ast.NodeTransformer):
+        def visit_Call(self, node):
+            self.generic_visit(node)
+            if au.call_tail(node) == "Vec" and len(node.args) == 1 and not node.keywords:
+                return node.args[0]
+            return node
+    import copy
+    return T().visit(copy.deepcopy(e))
+
+
+def _box_checks(ctx, modname, fn, node, polys, label, affine_ok, required):
+    s = ctx.site(modname, fn, node)
+    if any(p is None for p in polys):
+        ctx.fail("C14-Q1", s, f"{label}: corner expressions are not affine combinations of the given points", "")
+        return 1
+    ctx.check(all(affine_ok(p) for p in polys), "C14-Q1", s,
+              f"{label}: a corner is not an affine combination of the given points (weights do not sum to 1)",
+              f"corners {[str(p) for p in polys]}", note=f"{label}: corners are affine")
+    bottom = polys[0] - polys[1] + polys[2] - polys[3]
+    ctx.check(bottom.is_zero(), "C14-Q1", s, f"{label}: bottom corners 0,1,2,3 do not form a parallelogram in face order",
+              f"v0 - v1 + v2 - v3 = {bottom}", note=f"{label}: bottom face is a parallelogram")
+    lifts = [polys[i + 4] - polys[i] for i in range(4)]
+    ctx.check(all(l == lifts[0] for l in lifts) and not lifts[0].is_zero(), "C14-Q1", s,
+              f"{label}: top corners 4..7 are not the bottom corners 0..3 translated by one vector",
+              f"v4-v0, v5-v1, v6-v2, v7-v3 = {[str(l) for l in lifts]}: the side faces of the documented numbering are twisted",
+              note=f"{label}: top = bottom + {lifts[0]}")
+    k = 3
+    for i, want in sorted(required.items()):
+        k += 1
+        ctx.check(polys[i] == want, "C14-Q1", s, f"{label}: corner {i} is `{polys[i]}` instead of the requested point `{want}`",
+                  "the box is not built on the requested corners", note=f"{label}: corner {i} = {want}")
+    return k
+
+
+# ----------------------------------------------------------------------- C14-A1
+def _flatten_product(e, num, den, inv=False):
+    if isinstance(e, ast.BinOp) and isinstance(e.op, ast.Mult):
+        _flatten_product(e.left, num, den, inv)
+        _flatten_product(e.right, num, den, inv)
+    elif isinstance(e, ast.BinOp) and isinstance(e.op, ast.Div):
+        _flatten_product(e.left, num, den, inv)
+        _flatten_product(e.right, num, den, not inv)
+    else:
+        (den if inv else num).append(e)
+
+
+def _is_pi(e):
+    c = au.chain(e)
+    return bool(c) and c[-1] == "pi"
+
+
+def a1_full_turn(ctx):
+    n = 0
+    for key, expected in [((SHAPES, "torus"), 2), ((SHAPES, "sphere_uv"), 1), ((SHAPES, "cylinder"), 1)]:
+        fn = ctx.repo.func(*key)
+        b = sym.Bindings(fn)
+        n_before = n
+        for node in list(au.walk(fn)) + [None]:
+            if node is None:
+                if n - n_before < expected:
+                    _LOST.add("C14-A1")
+                    ctx.fail("C14-A1", ctx.site(key[0], fn), f"{key[1]}: periodic parameter `2*pi*x/T` of a range(T) loop not found",
+                             f"{n - n_before} full-turn expression(s) recognised, {expected} confirmed by hand")
+                break
+            if not (isinstance(node, ast.BinOp) and isinstance(node.op, (ast.Mult, ast.Div))):
+                continue
+            par = au.parent(node)
+            if isinstance(par, ast.BinOp) and isinstance(par.op, (ast.Mult, ast.Div)):
+                continue   # not maximal
+            num, den = [], []
+            _flatten_product(node, num, den)
+            if not any(_is_pi(x) for x in num):
+                continue
+            consts = [au.const(x) for x in num + den if isinstance(au.const(x), (int, float))]
+            c = Fraction(1)
+            for x in num:
+                if isinstance(au.const(x), (int, float)):
+                    c *= Fraction(au.const(x)).limit_denominator(1000)
+            for x in den:
+                if isinstance(au.const(x), (int, float)) and au.const(x) != 0:
+                    c /= Fraction(au.const(x)).limit_denominator(1000)
+            if c != 2:
+                continue   # not a full turn (half turns of the latitude are not periodic)
+            # loop variable factors
+            loops = {a.target.id: a for a in au.ancestors(node) if isinstance(a, ast.For) and isinstance(a.target, ast.Name)
+                     and isinstance(a.iter, ast.Call) and au.call_tail(a.iter) == "range" and len(a.iter.args) == 1}
+            lv = [x for x in num if isinstance(x, ast.Name) and x.id in loops]
+            if len(lv) != 1:
+                continue
+            x = lv[0].id
+            trip = sym.to_poly(_res(b, loops[x].iter.args[0], at=loops[x]))
+            others = [d for d in den if not isinstance(au.const(d), (int, float))]
+            extra = [q for q in num if not _is_pi(q) and not isinstance(au.const(q), (int, float)) and q is not lv[0]]
+            n += 1
+            dpoly = Poly.const(1)
+            for d in others:
+                dpoly = dpoly * sym.to_poly(_res(b, d, at=node))
+            s = ctx.site(key[0], fn, node)
+            ok = not extra and dpoly == trip
+            wit = ""
+            if not ok and not extra:
+                g = G.GridFn(fn)
+                mins = dict(ADMISSIBLE.get(key, {}))
+                try:
+                    for penv in g.param_envs(sorted(dpoly.atoms() | trip.atoms()), mins):
+                        if dpoly.eval(penv) != trip.eval(penv):
+                            wit = (f"; witness {G.fmt_env(penv)}: the last step reaches {trip.eval(penv) - 1}/{dpoly.eval(penv)} of a turn, "
+                                   f"the seam closes only at {trip.eval(penv) - 1}/{trip.eval(penv)}")
+                            break
+                except G.Unsupported:
+                    pass
+            ctx.check(ok, "C14-A1", s,
+                      f"the full turn of `{x}` is divided by `{dpoly}` while `{x}` runs over `{trip}` steps",
+                      f"`{au.src(node)}`: the periodic direction must be sampled at x/T of a turn for x in range(T)" + wit,
+                      note=f"{key[1]}: 2*pi*{x}/{trip}")
+    _floor(ctx, "C14-A1", "C14-A1 full-turn parameters", n, 4)
+
+
+# ----------------------------------------------------------------------- C14-W1
+def w1_chain(ctx):
+    fn = ctx.repo.func(LINES, "chain_of_vertices")
+    site = ctx.site(LINES, fn)
+    ps = au.params(fn)
+    found = False
+    for st in fn.body:
+        if not (isinstance(st, ast.If) and st.orelse):
+            continue
+        pol = G.sw_eval(st.test, {ps[1]: True}) if len(ps) > 1 else None
+        if pol is None:
+            continue
+        found = True
+        on, off = (st.body, st.orelse) if pol else (st.orelse, st.body)
+
+        def tails(body):
+            return sorted({au.call_tail(c) for s_ in body for c in au.calls(s_) if au.call_tail(c) in ("cyclic_pairs", "consecutive_pairs")})
+        ctx.check(tails(on) == ["cyclic_pairs"] and tails(off) == ["consecutive_pairs"], "C14-W1", ctx.site(LINES, fn, st),
+                  f"chain_of_vertices: loop=True uses {tails(on)} and loop=False uses {tails(off)}",
+                  "a closed loop needs the wrapping pair (n-1, 0); an open chain must not have it", note="loop switch wired as named")
+        # both over all vertices
+        b = sym.Bindings(fn)
+        rargs = [_res(b, c.args[0], at=c) for s_ in st.body + st.orelse for c in au.calls(s_)
+                 if au.call_tail(c) in ("cyclic_pairs", "consecutive_pairs") and c.args]
+        args = [au.src(a) for a in rargs]
+
+        def all_vertices(a):
+            return isinstance(a, ast.Call) and au.call_tail(a) == "range" and len(a.args) == 1 and isinstance(a.args[0], ast.Call) \
+                and au.call_tail(a.args[0]) == "len" and len(a.args[0].args) == 1 and isinstance(a.args[0].args[0], ast.Attribute) \
+                and a.args[0].args[0].attr == "vertices"
+        ctx.check(len(rargs) == 2 and all(all_vertices(a) for a in rargs), "C14-W1",
+                  ctx.site(LINES, fn, st), f"chain_of_vertices: pairs are taken over {args} instead of all vertex indices",
+                  "every vertex must be linked", note="pairs over range(len(vertices))")
+    if not found:
+        ctx.fail("C14-W1", site, "chain_of_vertices: branch on the `loop` switch not found", "")
